@@ -285,8 +285,9 @@ func (b *builder) runB58(c *vrun.Ctx, rc rawCase) error {
 	}
 	s, ok := b.b58String(cs.S)
 	if !ok {
+		// no Base58Check string with this version byte and length starts like a
+		// registered segwit prefix: nothing to replay
 		c.AddExtra("b58_rows_without_a_string", 1)
-		c.AddTraces(1)
 		return nil
 	}
 	a, _, err := b.t.checkDecode(c, s, cs.Dn, "table-row", "row of the Base58Check decision table", rc.replay())
